@@ -90,3 +90,6 @@ prop(
 
 prop("C05", [fmtdec.rule_dec_cover, fmtdec.rule_transparent_call, fmtdec.rule_transparent_siblings], meta={"explanation": "wip"})
 prop("C02", [fmtdec.rule_tpl_verb, fmtdec.rule_binder_align, fmtdec.rule_pointer_deref, fmtdec.rule_rename_all], meta={"explanation": "wip"})
+
+prop("C04", [fmtdec.rule_guard_use, fmtdec.rule_traversal, fmtdec.rule_lookup_agreement], meta={"explanation": "wip"})
+prop("C07", [fmtdec.rule_shared_reject, fmtdec.rule_shared_decision, fmtdec.rule_lookup_agreement], meta={"explanation": "wip"})
